@@ -34,7 +34,7 @@ def prepare_shadow():
         with open(f) as fh:
             t = fh.read()
         with open(f, "w") as fh:
-            fh.write(t.replace('path = "/repo/rcgen"', 'path = "%s/rcgen"' % REPO))
+            fh.write(t.replace('path = "/repo/', 'path = "%s/' % REPO))
 DEFAULT_SEED = 20261003
 
 
@@ -667,6 +667,8 @@ def check_c15(tier):
         {"label": "L2 no-crypto/shuttle", "features": N + ["shuttle"], "engine": "purity-shuttle", "mode": "default", "runs": 320 if q else 6000},
         {"label": "L1 ring+debug-assertions/histories", "features": R, "engine": "purity-hist", "mode": "default", "runs": 480 if q else 8000, "dbg": True},
         {"label": "L1 aws_lc_rs+zeroize/histories", "features": A + ["zeroize"], "engine": "purity-hist", "mode": "default", "runs": 320 if q else 6000},
+        # the workspace's second generation path: the rustls_cert_gen library, one shared Ca object
+        {"label": "L1 ring/rustls_cert_gen library histories", "features": R + ["clilib-ring"], "engine": "purity-lib", "mode": "default", "runs": 480 if q else 8000},
     ]
     results, unlisted = run_plan("C15", plan, tier, vseed)
     rep_info, u = check_replicas("C15", R, tier, 480 if q else 6000, vseed)
@@ -701,6 +703,7 @@ def check_c15(tier):
         "L1_pristine_references_computed_in_fresh_processes": sum_counter(results, "pristine_references"),
         "L1_observations_compared_with_pristine_reference": sum_counter(results, "compared_with_pristine"),
         "L1_twin_observations(equal parameters, other object history)": sum_counter(results, "twin_observations"),
+        "L1_rustls_cert_gen_library_histories(one shared Ca, subject keys repeated through the getrandom seam)": sum_counter(results, "lib_histories"),
         "L4_replicas": rep_info,
         "L3_miri": miri_info,
         "fault_kinds_fired": {"signer_Err_during_noise_generation": sum_counter(results, "noise_failing-gen"),
@@ -876,6 +879,7 @@ def check_c18(tier):
         "openssl_chain_verified": sum_counter(results, "openssl_chain_verified"),
         "webpki_chain_verified": sum_counter(results, "webpki_chain_verified"),
         "fault_kinds_fired": dict(sorted(faults.items())),
+        "invocations_in_which_a_neighbour_won_the_mkdir_race(not a fault: success demanded)": sum_counter(results, "neighbour_won_mkdir_race"),
         "faults_fired_total": sum_counter(results, "faults_fired"),
         "faults_armed_but_never_reached": sum_counter(results, "faults_armed_not_reached"),
         "enumerated_fault_points": sum_counter(results, "enum_fault_points"),
